@@ -31,9 +31,13 @@ Three ties, one oracle family:
 (3) lockstep of a REAL ApplicationIOController + SieveQueue (stub stack below)
     against Model.Iocb: request_io / application abort / confirmations of each
     kind / deferred functions one at a time, several destinations, priorities,
-    unconfirmed requests, requests the stack refuses.  Oracle: one callback per
-    IOCB, terminal states final, the next queued IOCB goes out once the
-    deferred trigger ran, empty queues forgotten.
+    unconfirmed requests, requests the stack refuses, and RE-ENTRANT operations:
+    scripts armed beforehand that the application's completion callback runs
+    inside complete_io / abort_io (request_io to the same / another destination,
+    abort of other IOCBs).  Oracle: one callback per IOCB, terminal states final,
+    the next queued IOCB goes out once the deferred trigger ran, no idle queue
+    with waiting IOCBs lacks a pending trigger, empty queues forgotten, every
+    IOCB finished at the end.
 """
 import json, os
 from . import core
@@ -62,8 +66,11 @@ ASSUMPTIONS = ["the application does not abort an IOCB whose request is in fligh
                "DeviceCommunicationControl is 'enable' for the exactly-one clause (a disabled stack drops requests silently)",
                "every ComplexAck the peer sends has a registered decoder (the ASAP drops an ack of an unknown service: "
                "the transaction ends, the application hears nothing)",
-               "local maxApduLengthAccepted >= 50 and maxSegmentsAccepted != 1 (otherwise every transmission raises "
-               "ValueError and the retry counter is reset: no termination)",
+               "liveness: local maxApduLengthAccepted >= 50 and maxSegmentsAccepted != 1 (cfgOk, a decidable predicate "
+               "on the configuration from which the no-exception hypothesis is PROVED; otherwise every transmission "
+               "raises ValueError and the retry counter is reset: no termination)",
+               "IOCB re-entrancy: a completion callback may submit new IOCBs to any destination and abort OTHER "
+               "IOCBs; it does not abort the IOCB it is called back for",
                "real elapsed time under asyncore is not modelled: bounds are in virtual time and in timer expiries"]
 
 EXE = "drv_c04"
